@@ -35,19 +35,24 @@ use val::{b, i, l, t, Val};
 
 struct Counting;
 static MAX_ALLOC: AtomicUsize = AtomicUsize::new(0);
+// bytes currently allocated (C18: what a call that failed, or a result that was dropped, leaves behind)
+static LIVE: AtomicUsize = AtomicUsize::new(0);
 const POISON: u8 = 0xDD;
 
 unsafe impl GlobalAlloc for Counting {
     unsafe fn alloc(&self, layout: Layout) -> *mut u8 {
         MAX_ALLOC.fetch_max(layout.size(), Ordering::Relaxed);
+        LIVE.fetch_add(layout.size(), Ordering::Relaxed);
         System.alloc(layout)
     }
     unsafe fn alloc_zeroed(&self, layout: Layout) -> *mut u8 {
         MAX_ALLOC.fetch_max(layout.size(), Ordering::Relaxed);
+        LIVE.fetch_add(layout.size(), Ordering::Relaxed);
         System.alloc_zeroed(layout)
     }
     unsafe fn dealloc(&self, ptr: *mut u8, layout: Layout) {
         std::ptr::write_bytes(ptr, POISON, layout.size());
+        LIVE.fetch_sub(layout.size(), Ordering::Relaxed);
         System.dealloc(ptr, layout)
     }
     unsafe fn realloc(&self, ptr: *mut u8, layout: Layout, new_size: usize) -> *mut u8 {
@@ -55,6 +60,8 @@ unsafe impl GlobalAlloc for Counting {
         let new_layout = Layout::from_size_align_unchecked(new_size, layout.align());
         let np = System.alloc(new_layout);
         if !np.is_null() {
+            LIVE.fetch_add(new_size, Ordering::Relaxed);
+            LIVE.fetch_sub(layout.size(), Ordering::Relaxed);
             std::ptr::copy_nonoverlapping(ptr, np, layout.size().min(new_size));
             std::ptr::write_bytes(ptr, POISON, layout.size());
             System.dealloc(ptr, layout);
@@ -683,6 +690,12 @@ fn run_op(w: &mut World, op: &Val) -> Val {
         "sleep_ms" => {
             std::thread::sleep(Duration::from_millis(a[0].int() as u64));
             t("ok", vec![])
+        }
+        // ---- C18: bytes allocated right now (everything the process holds: client, kept results, harness state)
+        "live_bytes" => {
+            w.last_poll = None;
+            w.last_fetch = None;
+            t("ok", vec![i(LIVE.load(Ordering::Relaxed) as i64)])
         }
         // ---- C18: keep results alive across moves, other work and allocation churn
         "churn" => {
